@@ -11,6 +11,7 @@
     no exception, identical outputs / scale / gradients on probe tensors.
 """
 import ast
+import keyword
 
 import numpy as np
 
@@ -77,7 +78,8 @@ def gen_ident(rng, pool):
   if pool and rng.integers(3) != 0:
     return pool[int(rng.integers(len(pool)))]
   n = int(rng.integers(1, 8))
-  return IDENT0[int(rng.integers(len(IDENT0)))] + "".join(IDENT[int(i)] for i in rng.integers(0, len(IDENT), size=n - 1))
+  k = IDENT0[int(rng.integers(len(IDENT0)))] + "".join(IDENT[int(i)] for i in rng.integers(0, len(IDENT), size=n - 1))
+  return k + "_" if keyword.iskeyword(k) else k   # reserved words are not identifiers
 
 
 def gen_args(rng, pool, allow_bad_order=True):
